@@ -168,8 +168,8 @@ func c01R2(c *Ctx) {
 // evaluated (false) for every listed error.
 func checkReplayBranch(c *Ctx, rule, role string, fn *ssa.Function, ex *Exploration, lookup string, invalidated []string, requireAllTested bool) {
 	nReplay := 0
-	okAT, okRT, okID, okExit, okTested := true, true, true, true, true
-	var wAT, wRT, wID, wExit, wTested *Path
+	okAT, okRT, okID, okExit, okTested, okClass := true, true, true, true, true, true
+	var wAT, wRT, wID, wExit, wTested, wClass *Path
 	var whyID, whyExit string
 	for _, p := range ex.Paths {
 		lk := p.First(lookup)
@@ -178,10 +178,21 @@ func checkReplayBranch(c *Ctx, rule, role string, fn *ssa.Function, ex *Explorat
 		}
 		stored, lerr := lk.Ret(0), lk.Ret(1)
 		isReplay := false
+		classified := p.IsNil(lerr)
 		for _, g := range invalidated {
-			if p.Holds(atomB(call("errors.Is", lerr, &Term{Op: "global", Name: g})), true) {
+			a := atomB(call("errors.Is", lerr, &Term{Op: "global", Name: g}))
+			if p.Holds(a, true) {
 				isReplay = true
 			}
+			if _, known := p.idx[a.Key()]; known {
+				classified = true
+			}
+		}
+		// no exit may be taken after the lookup before its error was classified: a replayed
+		// credential comes back with the stored request AND the invalidated error, so any
+		// check that runs first (client, redirect_uri, ...) could refuse the replay without revoking
+		if p.Kind == "return" && !classified {
+			okClass, wClass = false, p
 		}
 		if isReplay && p.Holds(atomEQ(stored, tNil), false) {
 			nReplay++
@@ -227,6 +238,7 @@ func checkReplayBranch(c *Ctx, rule, role string, fn *ssa.Function, ex *Explorat
 	c.Check(okRT, rule, role, fn, "replay-revokes-refresh", "the replay branch calls RevokeRefreshToken", "a replay path does not call RevokeRefreshToken", wRT)
 	c.Check(okID, rule, role, fn, "replay-revoke-id", "both revokes take GetID of the stored request", whyID, wID)
 	c.Check(okExit, rule, role, fn, "replay-exit", "the replay branch is a fail exit derived from ErrInvalidGrant", whyExit, wExit)
+	c.Check(okClass, rule, role, fn, "replay-classified-first", "every exit after the lookup is taken only once the lookup error was classified (nil, or tested against the invalidated error): no other check can pre-empt replay detection", "an exit is reachable after the lookup without its error having been tested against the invalidated-credential error", wClass)
 	c.Check(okTested, rule, role, fn, "success-needs-clean-lookup", "success exits require a nil lookup error with the invalidated test evaluated false", "a success exit is reachable without the lookup error having been classified", wTested)
 }
 
